@@ -76,8 +76,8 @@ impl Engine for C20Engine {
 }
 
 impl C09Engine {
-    fn parts(&self) -> [(&'static str, &'static dyn Engine); 3] {
-        [("e1", &crate::e1::E1), ("e5", &crate::e5::E5), ("e4", &crate::e4::E4)]
+    fn parts(&self) -> [(&'static str, &'static dyn Engine); 4] {
+        [("e1", &crate::e1::E1), ("e5", &crate::e5::E5), ("e4", &crate::e4::E4), ("e3", &crate::e3::E3)]
     }
     fn part_of(&self, tag: &str) -> &'static dyn Engine {
         self.parts().iter().find(|p| p.0 == tag).map(|p| p.1).unwrap_or(&crate::e1::E1)
@@ -86,7 +86,7 @@ impl C09Engine {
 
 impl Engine for C09Engine {
     fn name(&self) -> &'static str {
-        "E1 api-sim + E5 insn-sim + E4 load-sim"
+        "E1 api-sim + E5 insn-sim + E4 load-sim + E3 sys-sim"
     }
     fn runs(&self, prop: &str, thorough: bool) -> u64 {
         self.parts().iter().map(|p| p.1.runs(prop, thorough)).sum()
